@@ -721,6 +721,7 @@ theorem step_good (cfg : Cfg) (n : Node) (op : Op) (hg : GenInv n) (h : Rec n) (
       refine ⟨hnr_case rfl, ?_⟩
       have hcalm : ({ n with failIn := min k 3 } : Node).failIn = 0 := hc'
       exact ⟨recLive_same (n := n) (fun i => rfl) rfl h.live, h.hist, hcalm⟩
+    | nop => exact ⟨hg, h⟩
     | coldreset => exact ⟨genInv_fresh _ _, rec_fresh _ _⟩
     | fabrecover i => exact ⟨genInv_fresh _ _, rec_fresh _ _⟩
     | freset => exact absurd rfl hop
